@@ -170,6 +170,11 @@ def map_case(ops, ni, vals, nums, asgi):
                 return fail('set_headers accepted Set-Cookie')
             except falcon.HeaderNotSupported:
                 pass
+            try:
+                resp.set_headers({COOKIE_HDR[(ni[k] + 1) % 3]: v})     # ... nor through the mapping form of the bulk call
+                return fail('set_headers(mapping) accepted Set-Cookie')
+            except falcon.HeaderNotSupported:
+                pass
         # read back in every casing
         for probe in NAMES + ['Link', 'X-B', 'Retry-After', 'Content-Length', 'ETag', 'Cache-Control', 'Accept-Ranges']:
             got = resp.get_header(probe)
@@ -482,12 +487,12 @@ def h(%s) -> int:
 def partitions(tier, seed):
     P = []
     q = tier == 'quick'
-    pairs = [(0, 1), (1, 2), (0, 2), (3, 1), (4, 0), (5, 0), (5, 6), (6, 5), (1, 1), (7, 7), (8, 10), (10, 9), (8, 9), (11, 8), (0, 5),
+    pairs = [(0, 1), (1, 2), (0, 2), (3, 1), (4, 0), (5, 0), (5, 6), (6, 5), (1, 1), (7, 7), (8, 10), (10, 9), (8, 9), (11, 8), (0, 5), (10, 10),
              (5, 1), (2, 1), (1, 3)]
-    triples = [(0, 1, 2), (0, 2, 1), (1, 2, 1), (5, 1, 6), (8, 9, 8), (10, 11, 8), (3, 1, 0)]
+    triples = [(0, 1, 2), (0, 2, 1), (1, 2, 1), (5, 1, 6), (8, 9, 8), (10, 11, 8), (3, 1, 0), (8, 10, 10), (10, 8, 10)]
     four = [(0, 1, 2, 1)]
     if q:
-        triples = [(0, 2, 1), (5, 1, 6), (8, 9, 8), (10, 11, 8)]
+        triples = [(0, 2, 1), (5, 1, 6), (8, 9, 8), (10, 11, 8), (8, 10, 10)]
     hist = pairs + triples + four
     if not q:
         hist = hist + [(a, b, c) for a in (0, 1, 5) for b in range(8) for c in (0, 1, 2)]
@@ -497,7 +502,7 @@ def partitions(tier, seed):
             continue
         seen.add(ops)
         n = len(ops)
-        for asgi in ((0, 1) if not q else (len(seen) % 2,)):
+        for asgi in ((0, 1) if (not q or ops.count(10) >= 2 or ops == (11, 8)) else (len(seen) % 2,)):
             # the name / typed-property index is symbolic only for the operations that use it
             sym = [k for k in range(n) if ops[k] in (0, 1, 2, 3, 4, 5, 6, 11)]
             args = ', '.join(['i%d: int' % k for k in sym] + ['v%d: str' % k for k in range(n)] + ['num: int'])
